@@ -81,12 +81,18 @@ type kind struct {
 
 // ------------------------------------------------------------------ helpers
 
+// errText renders an error; the error values themselves are collected so that
+// exec can hold on to them: an error is a returned value like any other and
+// must read the same after later calls.
 func errText(err error) string {
 	if err == nil {
 		return "<nil>"
 	}
+	seenErrs = append(seenErrs, err)
 	return err.Error()
 }
+
+var seenErrs []error
 
 func scribble(b []byte) {
 	for i := range b {
@@ -172,7 +178,22 @@ var invalidDocs = []struct{ class, text string }{
 // ------------------------------------------------------------------ kinds
 
 func kinds() []*kind {
-	return []*kind{ojParser(), ojValidator(), ojTokenizer(), genParser(), senParser(), senTokenizer(), ojWriter(), senWriter(), prettyWriter(), pooledOj(), pooledSen()}
+	ks := []*kind{ojParser(), ojValidator(), ojTokenizer(), genParser(), senParser(), senTokenizer(), ojWriter(), senWriter(), prettyWriter(), pooledOj(), pooledSen()}
+	// the parsers again from another initial state: an instance created with Reuse
+	// set (histories that need Reuse on first are one call shorter from there)
+	for _, k := range []*kind{ojParser(), genParser(), senParser()} {
+		base := k.fresh
+		k.name += "{Reuse:true}"
+		k.fresh = func(like any) any {
+			inst := base(like)
+			if like == nil {
+				reflect.ValueOf(inst).Elem().FieldByName("Reuse").SetBool(true)
+			}
+			return inst
+		}
+		ks = append(ks, k)
+	}
+	return ks
 }
 
 func ojParser() *kind {
@@ -202,6 +223,16 @@ func ojParser() *kind {
 	}
 	k.ops = append(k.ops,
 		parseOp("ParseReader:read-fails", "aborted", `{"a":[1,2,`, func(i any, b []byte) (any, error) { return P(i).ParseReader(&failReader{data: b, n: len(b)}) }),
+		parseOp("Parse:multi-chan", "config", `{"a":1} {"b":{"c":[2]}}`, func(i any, b []byte) (any, error) {
+			ch := make(chan any, 8)
+			_, err := P(i).Parse(b, ch)
+			close(ch)
+			var docs []any
+			for v := range ch {
+				docs = append(docs, v)
+			}
+			return docs, err
+		}),
 		parseOp("Parse:multi-callback", "config", `1 [2] {"a":3}`, func(i any, b []byte) (any, error) {
 			var docs []any
 			_, err := P(i).Parse(b, func(v any) { docs = append(docs, v) })
@@ -356,6 +387,16 @@ func genParser() *kind {
 			}
 			return n, err
 		}),
+		parseOp("Parse:multi-chan", "config", `{"a":1} {"b":{"c":[2]}}`, func(i any, b []byte) (any, error) {
+			ch := make(chan gen.Node, 8)
+			_, err := P(i).Parse(b, ch)
+			close(ch)
+			var docs []any
+			for v := range ch {
+				docs = append(docs, v)
+			}
+			return docs, err
+		}),
 		parseOp("Parse:multi-callback", "config", `1 [2] {"a":3}`, func(i any, b []byte) (any, error) {
 			var docs []any
 			_, err := P(i).Parse(b, func(v gen.Node) { docs = append(docs, v) })
@@ -407,6 +448,16 @@ func senParser() *kind {
 		}),
 		parseOp("ParseReader:concat", "valid", senValid[5].text, func(i any, b []byte) (any, error) { return P(i).ParseReader(bytes.NewReader(b)) }),
 		parseOp("ParseReader:read-fails", "aborted", `{a:[1 2 "x" +`, func(i any, b []byte) (any, error) { return P(i).ParseReader(&failReader{data: b, n: len(b)}) }),
+		parseOp("Parse:multi-chan", "config", `{a:1} {b:{c:[2]}}`, func(i any, b []byte) (any, error) {
+			ch := make(chan any, 8)
+			_, err := P(i).Parse(b, ch)
+			close(ch)
+			var docs []any
+			for v := range ch {
+				docs = append(docs, v)
+			}
+			return docs, err
+		}),
 		parseOp("Parse:multi-callback", "config", `1 [2] {a:3}`, func(i any, b []byte) (any, error) {
 			var docs []any
 			_, err := P(i).Parse(b, func(v any) { docs = append(docs, v) })
@@ -800,6 +851,8 @@ func watchText(vs []any) string {
 			b.WriteString(string(t))
 		case string:
 			b.WriteString(t)
+		case error:
+			b.WriteString("error: " + t.Error() + " " + snap.DumpValue(reflect.ValueOf(t)))
 		default:
 			b.WriteString(mach.Canon(v))
 		}
@@ -834,7 +887,13 @@ func exec(c *core.Ctx, k *kind, seq []int, states map[string]struct{}) {
 			like = k.fresh(inst) // configuration as it is before the call
 		}
 		reuseSet := snap.Bool(inst, "Reuse")
+		seenErrs = nil
 		r := o.run(inst)
+		for _, e := range seenErrs {
+			r.watch = append(r.watch, e)
+		}
+		// (the channel form switches Reuse off for the call: what it delivers is not exempt)
+		reuseSet = reuseSet && snap.Bool(inst, "Reuse")
 		c.Add("transitions", 1)
 		c.Eval()
 		if !last && (r.abort || o.class == "config") {
